@@ -316,6 +316,20 @@ def run_proc(ctx, spec):
             elif '\x1b' in c[1]:
                 ctx.sig(['proc', h64(case)])
                 ctx.count('sessions_with_colour')
+            if i % 3 == 0:
+                # invocations that print something and exit (--matcher-help, -h, a usage error), colour disabled, into a pipe and on a
+                # terminal: no escape sequence, and the same text as with colour forced once that is stripped
+                for argv in (['-C', '--matcher-help'], ['--matcher-help', '--no-color'], ['-C', '-h'], ['-C'], ['-C', '--color', '--matcher-help']):
+                    mainp = ['/venv/bin/python', os.path.join(env.REPO, 'main.py')]
+                    r1 = subprocess.run(mainp + argv, input=b'', stdout=subprocess.PIPE, stderr=subprocess.PIPE, timeout=300, env=e2)
+                    t = run_on_terminal(mainp + argv, b'', e2, 80, os.path.join(d, 'stderr.txt'))
+                    ctx.ev()
+                    ctx.count('processes', 2)
+                    for where, text in (('into a pipe', r1.stdout.decode('utf-8', 'replace') + r1.stderr.decode('utf-8', 'replace')), ('on a terminal', t[1] + t[2])):
+                        if '\x1b' in text:
+                            ctx.violation('escape-when-off', 'main.py %s %s wrote an escape sequence: %r' % (' '.join(argv), where, text[max(0, text.index('\x1b') - 30):text.index('\x1b') + 30]),
+                                          {'argv': argv, 'where': where})
+                            break
     finally:
         import shutil
         shutil.rmtree(d, ignore_errors=True)
